@@ -4,6 +4,8 @@ From Coq Require Import List Bool Arith Lia.
 From KV Require Import Model.Gate.
 Import ListNotations.
 
+Definition inst_done {A} (h : A) (x : nat) : Prop := True.
+
 Lemma phase_eqb_eq : forall a b, phase_eqb a b = true <-> a = b.
 Proof. intros [] []; simpl; split; intro H; try discriminate; auto. Qed.
 
@@ -168,6 +170,7 @@ Definition pre_index (p : ophase) : Prop := p = PToggled \/ p = PQueued \/ p = P
 Definition in_first (p : ophase) : Prop := p = PChecked \/ p = PToggled.
 
 Record GInv (s : gst) : Prop := mkGInv {
+  i_blk : blocker s = true -> 0 < nblock s;
   i_open : is_on s = true -> 0 < nblock s -> opened s = true;
   i_nb_w : forall r, won (wst s r) = true -> 0 < nblock s;
   i_nb_o : forall o, ph (ost s o) <> PNew -> won (wst s (kind (ost s o))) = true;
@@ -207,14 +210,48 @@ Ltac lists :=
   | H : In _ [] |- _ => destruct H
   end.
 Ltac light := intros; unfold pre_index, in_first in *; upd_cases; simpl in *; lists; subst;
+  try (apply orb_true_iff; left);
   try tauto; try congruence; try lia; eauto 3.
+
+(* instantiate every invariant clause at every nat in sight, then decide propositionally *)
+Ltac inst1 H x :=
+  lazymatch type of H with
+  | forall _ : nat, _ => let H' := fresh "Hi" in pose proof (H x) as H'
+  | _ => idtac
+  end.
+Ltac inst_all x :=
+  repeat match goal with
+  | H : forall _ : nat, _ |- _ =>
+      lazymatch goal with
+      | _ : inst_done H x |- _ => fail
+      | _ => let H' := fresh "Hi" in pose proof (H x) as H'; assert (inst_done H x) by exact I
+      end
+  end.
+Ltac heavy :=
+  intros; unfold pre_index, in_first in *; upd_cases; simpl in *; lists; subst;
+  try (apply orb_true_iff; left);
+  repeat match goal with x : nat |- _ => progress (inst_all x) end;
+  repeat match goal with
+  | H : forall _ : nat, _ |- _ => clear H
+  | H : inst_done _ _ |- _ => clear H
+  end;
+  try tauto; try congruence; try lia; try solve [intuition (try congruence; try lia; eauto 2)].
 
 Lemma st_open : forall lim s l s', GInv s -> gstep lim s l = Some s' ->
   is_on s' = true -> 0 < nblock s' -> opened s' = true.
 Proof.
+  intros lim s l s' _ H. unfold gstep in H. destruct (step0 lim s l) as [x|]; [|discriminate].
+  simpl in H; injection H as <-. unfold touch; simpl. intros Hon Hn.
+  assert (E : is_on x = true) by exact Hon. rewrite E. apply Nat.ltb_lt in Hn. rewrite Hn. apply orb_true_r.
+Qed.
+
+Lemma st_blk : forall lim s l s', GInv s -> gstep lim s l = Some s' ->
+  blocker s' = true -> 0 < nblock s'.
+Proof.
   intros lim s l s' I H. enter I H.
   all: try solve [timeout 20 light].
-  all: match goal with |- _ => idtac "LEFT open" end.
+  all: try solve [timeout 30 heavy].
+  all: match goal with |- _ => idtac "LEFT blk" end.
 Abort.
 
 Lemma st_nb_w : forall lim s l s', GInv s -> gstep lim s l = Some s' ->
@@ -222,6 +259,7 @@ Lemma st_nb_w : forall lim s l s', GInv s -> gstep lim s l = Some s' ->
 Proof.
   intros lim s l s' I H. enter I H.
   all: try solve [timeout 20 light].
+  all: try solve [timeout 30 heavy].
   all: match goal with |- _ => idtac "LEFT nb_w" end.
 Abort.
 
@@ -230,6 +268,7 @@ Lemma st_nb_o : forall lim s l s', GInv s -> gstep lim s l = Some s' ->
 Proof.
   intros lim s l s' I H. enter I H.
   all: try solve [timeout 20 light].
+  all: try solve [timeout 30 heavy].
   all: match goal with |- _ => idtac "LEFT nb_o" end.
 Abort.
 
@@ -238,6 +277,7 @@ Lemma st_dis : forall lim s l s', GInv s -> gstep lim s l = Some s' ->
 Proof.
   intros lim s l s' I H. enter I H.
   all: try solve [timeout 20 light].
+  all: try solve [timeout 30 heavy].
   all: match goal with |- _ => idtac "LEFT dis" end.
 Abort.
 
@@ -246,6 +286,7 @@ Lemma st_ung : forall lim s l s', GInv s -> gstep lim s l = Some s' ->
 Proof.
   intros lim s l s' I H. enter I H.
   all: try solve [timeout 20 light].
+  all: try solve [timeout 30 heavy].
   all: match goal with |- _ => idtac "LEFT ung" end.
 Abort.
 
@@ -254,6 +295,7 @@ Lemma st_rt : forall lim s l s', GInv s -> gstep lim s l = Some s' ->
 Proof.
   intros lim s l s' I H. enter I H.
   all: try solve [timeout 20 light].
+  all: try solve [timeout 30 heavy].
   all: match goal with |- _ => idtac "LEFT rt" end.
 Abort.
 
@@ -262,6 +304,7 @@ Lemma st_early : forall lim s l s', GInv s -> gstep lim s l = Some s' ->
 Proof.
   intros lim s l s' I H. enter I H.
   all: try solve [timeout 20 light].
+  all: try solve [timeout 30 heavy].
   all: match goal with |- _ => idtac "LEFT early" end.
 Abort.
 
@@ -270,6 +313,7 @@ Lemma st_ot : forall lim s l s', GInv s -> gstep lim s l = Some s' ->
 Proof.
   intros lim s l s' I H. enter I H.
   all: try solve [timeout 20 light].
+  all: try solve [timeout 30 heavy].
   all: match goal with |- _ => idtac "LEFT ot" end.
 Abort.
 
@@ -278,6 +322,7 @@ Lemma st_busy : forall lim s l s', GInv s -> gstep lim s l = Some s' ->
 Proof.
   intros lim s l s' I H. enter I H.
   all: try solve [timeout 20 light].
+  all: try solve [timeout 30 heavy].
   all: match goal with |- _ => idtac "LEFT busy" end.
 Abort.
 
@@ -286,6 +331,7 @@ Lemma st_chk : forall lim s l s', GInv s -> gstep lim s l = Some s' ->
 Proof.
   intros lim s l s' I H. enter I H.
   all: try solve [timeout 20 light].
+  all: try solve [timeout 30 heavy].
   all: match goal with |- _ => idtac "LEFT chk" end.
 Abort.
 
@@ -294,6 +340,7 @@ Lemma st_chk_e : forall lim s l s', GInv s -> gstep lim s l = Some s' ->
 Proof.
   intros lim s l s' I H. enter I H.
   all: try solve [timeout 20 light].
+  all: try solve [timeout 30 heavy].
   all: match goal with |- _ => idtac "LEFT chk_e" end.
 Abort.
 
@@ -302,6 +349,7 @@ Lemma st_k1 : forall lim s l s', GInv s -> gstep lim s l = Some s' ->
 Proof.
   intros lim s l s' I H. enter I H.
   all: try solve [timeout 20 light].
+  all: try solve [timeout 30 heavy].
   all: match goal with |- _ => idtac "LEFT k1" end.
 Abort.
 
@@ -310,6 +358,7 @@ Lemma st_k3 : forall lim s l s', GInv s -> gstep lim s l = Some s' ->
 Proof.
   intros lim s l s' I H. enter I H.
   all: try solve [timeout 20 light].
+  all: try solve [timeout 30 heavy].
   all: match goal with |- _ => idtac "LEFT k3" end.
 Abort.
 
@@ -318,6 +367,7 @@ Lemma st_k4 : forall lim s l s', GInv s -> gstep lim s l = Some s' ->
 Proof.
   intros lim s l s' I H. enter I H.
   all: try solve [timeout 20 light].
+  all: try solve [timeout 30 heavy].
   all: match goal with |- _ => idtac "LEFT k4" end.
 Abort.
 
@@ -326,6 +376,7 @@ Lemma st_k5 : forall lim s l s', GInv s -> gstep lim s l = Some s' ->
 Proof.
   intros lim s l s' I H. enter I H.
   all: try solve [timeout 20 light].
+  all: try solve [timeout 30 heavy].
   all: match goal with |- _ => idtac "LEFT k5" end.
 Abort.
 
@@ -334,6 +385,7 @@ Lemma st_k5q : forall lim s l s', GInv s -> gstep lim s l = Some s' ->
 Proof.
   intros lim s l s' I H. enter I H.
   all: try solve [timeout 20 light].
+  all: try solve [timeout 30 heavy].
   all: match goal with |- _ => idtac "LEFT k5q" end.
 Abort.
 
@@ -342,6 +394,7 @@ Lemma st_kn : forall lim s l s', GInv s -> gstep lim s l = Some s' ->
 Proof.
   intros lim s l s' I H. enter I H.
   all: try solve [timeout 20 light].
+  all: try solve [timeout 30 heavy].
   all: match goal with |- _ => idtac "LEFT kn" end.
 Abort.
 
